@@ -420,7 +420,7 @@ class C20(Check):
             r = rng.random()
             cs = rng.choice([None, None] + ENC_NAMES)
             mt = rng.choice(mts) if rng.random() < 0.5 else rng.choice(['text/html', 'text/html', 'text/plain', 'application/xhtml+xml'])
-            me = rng.choice([None, None] + ENC_NAMES)
+            me = rng.choice([None, None] + ENC_NAMES + ['X-\xc9t\xe9'])     # Latin-1 letters: lower-casing, bytes documents
             xr = rng.random()
             mr = rng.random()
             if 0.55 <= xr < 0.65:
